@@ -233,6 +233,10 @@ def trace(body: Body, operand, identity=IDENTITY_CALLS, _depth=0, _steps=None, _
     return trace_place(body, operand["p"], identity, _depth, steps, proj, seen)
 
 
+_SUCCESS = ("Ok", "Some", "Continue", "Ready")
+_FAILURE = ("Err", "None", "Break")
+
+
 def trace_place(body, place, identity=IDENTITY_CALLS, _depth=0, steps=None, proj=None, seen=None):
     steps = list(steps or [])
     proj = _proj_of(place) + list(proj or [])
@@ -253,11 +257,23 @@ def trace_place(body, place, identity=IDENTITY_CALLS, _depth=0, steps=None, proj
     if not ds:
         return [Origin("unknown", why=f"no def of _{l}", local=l, proj=proj, steps=steps)]
     out = []
+    # the payload of which variant is being read: a definition that can only produce the opposite kind of variant is not an origin
+    # (`(r as Ok).0` never comes from `r = Err(..)` or from `r = from_residual(..)`)
+    first = next((p for p in proj if isinstance(p, dict)), None)
+    wanted = (first.get("downcast") or first.get("v")) if first else None
+    wclass = 0 if wanted in _SUCCESS else (1 if wanted in _FAILURE else None)
     for d in ds:
         key = (l, d[0], d[1], d[2] if d[0] == "assign" else 0)
         if key in seen:
             continue
         seen2 = seen | {key}
+        if wclass is not None:
+            if d[0] == "assign" and d[3]["k"] == "aggregate" and d[3].get("ak") == "adt":
+                v = d[3].get("variant")
+                if (v in _SUCCESS and wclass == 1) or (v in _FAILURE and wclass == 0):
+                    continue
+            if d[0] == "call" and wclass == 0 and (Body.callee_decl(d[2]) or "").endswith("FromResidual::from_residual"):
+                continue
         if d[0] == "assign":
             rv = d[3]
             k = rv["k"]
@@ -434,6 +450,9 @@ def _flow_local(body, l, seen, depth):
             decl = Body.callee_decl(t) or ""
             if decl.endswith("ops::Try::branch"):
                 d = _try_dest(body, bb, t)
+                cont_, brk_ = try_arms(body, bb, t)
+                if brk_ is None and cont_ is not None and _resolved_switch_after(body, t):
+                    continue    # on this (specialised) path the value is known to be the success: no failure flows here
                 if d == 0:
                     out.append(("propagated", bb))
                 elif d is not None and body.locals[d].get("inl_ret"):
@@ -495,6 +514,18 @@ def _match_propagates(body, res_local, bb, discr_place):
     if len(rets) != 1:
         return None
     return rets.pop()
+
+
+def _resolved_switch_after(body, t):
+    cur = t.get("target")
+    for _ in range(6):
+        if cur is None:
+            return False
+        tt = body.term(cur)
+        if tt.get("k") == "switch":
+            return bool(tt.get("resolved"))
+        cur = tt.get("target") if tt.get("k") in ("goto", "false_edge", "drop") else None
+    return False
 
 
 def _try_dest(body, bb, t):
